@@ -5,7 +5,8 @@
        a source is (SRCID, OK), parse (i, ok) = if ok then Some i else None; the tail of the call
        returns the pair of registrations it was handed.
        answer per op: (parse true|false) | (used P none|(some S)) | (notfound SM PM)
-   (ffi_ids KIND N)         KIND ::= text | set     ids assigned to N policies, and whether assembly succeeds
+   (ffi_ids text N) | (ffi_ids set (BOOL ...))   ids assigned to N policies given as one text / to an
+       array whose elements are JSON (true) or text (false), and whether assembly succeeds
    (ffi_exit authorize allow|deny|error) | (ffi_exit validate DENYW input_error|(result PASSED WARNS)) *)
 From Coq Require Import String.
 From Cedar Require Export Ffi.
@@ -64,13 +65,22 @@ Definition run_ffi (cmd : string) (args : list sexp) : option sexp :=
     Some (match args with
           | [SY k; SI n] =>
               let bodies := repeat tt (Z.to_nat n) in
-              let s := if sym_eqb k "text" then Some (Concatenated bodies)
-                       else if sym_eqb k "set" then Some (SetOf bodies) else None in
-              match s with
-              | Some s => SL [e_list SS (map fst (assign_ids s));
-                              e_bool (match assemble s with Some _ => true | None => false end)]
-              | None => bad_input
-              end
+              if sym_eqb k "text" then
+                let s := Concatenated bodies in
+                SL [e_list SS (map fst (assign_ids s));
+                    e_bool (match assemble s with Some _ => true | None => false end)]
+              else bad_input
+          | [SY k; kinds] =>
+              (* (ffi_ids set (true false ...)) : true = element given in JSON form *)
+              if sym_eqb k "set" then
+                match d_list d_bool kinds with
+                | Some ks =>
+                    let s := SetOf (map (fun b => (b, tt)) ks) in
+                    SL [e_list SS (map fst (assign_ids s));
+                        e_bool (match assemble s with Some _ => true | None => false end)]
+                | None => bad_input
+                end
+              else bad_input
           | _ => bad_input
           end)
   else if sym_eqb cmd "ffi_exit" then
